@@ -91,7 +91,7 @@ def instant_inconsistency(obs):
             order = list(dict.fromkeys(w["order"]))
             canonical = ["shutdown", "resume", "paused0", "paused1"]
             # the unchanged provider reads the controller first and then the thread flags (all() / any() may stop early)
-            if len(order) >= 3 and order == canonical[:len(order)]:
+            if len(order) >= 2 and order == canonical[:len(order)]:
                 return "status-true-at-no-instant:reads=controller-then-threads"
             return "status-true-at-no-instant:reads=" + ",".join(order)
     return None
